@@ -3,6 +3,8 @@ CONSTANTS
   NV = 2
   StabV = {}
   HasHf = TRUE
+  Cmds = {}
+  Rewrites = FALSE
   NP = 3
   UseQueue = TRUE
   SkipQueue = FALSE
